@@ -44,7 +44,7 @@ Why(e) ==
       ELSE "slot-content"
 
 Init == tl = 1 /\ vreq = <<>> /\ vthreads = 0 /\ vbatch = 0 /\ vskip = FALSE /\ vtask = <<>> /\ vwk = <<>>
-        /\ vgen = 1 /\ vhandle = <<>> /\ vout = <<>> /\ vret = NoRes
+        /\ vgen = 1 /\ vhandle = <<>> /\ vout = <<>> /\ vparts = <<>> /\ vret = NoRes
 Next == /\ tl <= Len(Rec) /\ tl' = tl + 1 /\ UNCHANGED pxvars
         /\ IF Rec[tl].ev = "Par"
            THEN LET w == Why(Rec[tl]) IN IF w # "" THEN PrintT(<<"BAD", tl, w>>) ELSE TRUE
